@@ -84,4 +84,37 @@ CLAIMED.update({
              note=_N + "terminal.GetSize, fmt and the float64 evaluation of n/(phi+1) are outside the model.", technique="Lean 4 proof + correspondence of rendered row counts and grant vectors"),
 })
 
+CLAIMED.update({
+ "C05": dict(text=_T % "C05" + "reorderings_preserve_behaviour: for every well-formed code, every history of accepted/rejected instruction and block moves, every block and every valuation, running the current order "
+             "gives the same registers, memory and final control transfer as the original order (edge soundness as dependency paths, frame lemmas, commutation of non-conflicting instructions, accepted moves pass only "
+             "non-conflicting instructions); block moves change no address and no lookup. Execution semantics = the IR reference semantics (effects evaluated in the pre-state, IP write = jump)",
+             note=_N + "Go maps/sets as duplicate-free lists, instructions identified by position; the emulator's own step is C03's subject.", technique="Lean 4 proof (commutation + induction over move histories) + correspondence incl. execution of both orders"),
+ "C06": dict(text=_T % "C06" + "no finder adds a spurious edge (every edge joins instructions that conflict by the property's clause list) and, in every state reachable from well-formed code, Independent(seq[i], seq[i+1]) implies Move(i,i+1) succeeds",
+             note=_N, technique="Lean 4 proof + correspondence over all adjacent pairs of generated blocks"),
+ "C07": dict(text=_T % "C07" + "a move is accepted iff both positions are valid and LowerBound <= to <= UpperBound; rejected operations change nothing; accepted = rotation of the segment; invariant (indices, contiguous addresses, exact "
+             "Block/Code lookups, all edges forward, bounds contain each instruction) holds initially and after any history of instruction moves, block moves and lookups; nothing panics",
+             note=_N + "sort.Search modelled by its meaning.", technique="Lean 4 proof (invariant by induction over operation histories) + correspondence on interleaved histories"),
+ "C20": dict(text=_T % "C20" + "starting from the debug/elf view: result is an error or memory = PT_LOAD images (file bytes then zeros), code = exactly the non-empty executable address-bearing PROGBITS sections, sorted and "
+             "non-overlapping, Address = suffix of the containing block or nothing; types none/rel/core and overlaps rejected; no panic given the allocator grants the zero fill (parameter lim). Partial: debug/elf, OS, allocator. "
+             "Known finding F19 (enormous p_memsz) recorded",
+             note=_N + "debug/elf, file system and allocator outside the model; an independent minimal ELF reader in Lean is the oracle for generated files.", technique="Lean 4 proof from the ELF view + correspondence on generated and mutated ELF files"),
+ "C21": dict(text=_T % "C21" + "parse fails iff some instruction position holds an undecodable or truncated word; otherwise instructions tile every block contiguously in address order with Bytes = image bytes and Effects = map constFold "
+             "of the front end's lifting; fuel suffices (generic decoder theorem + RV64IMA instance over the regenerated tables)",
+             note=_N, technique="Lean 4 proof + correspondence on generated code images"),
+ "C26": dict(text=_T % "C26" + "run(args, view) is 'ui' or 'exit1 stage', never panic, composing the no-panic theorems of C20, C21, C02, C08, C15; the 'cannot create byte memory' exit is unreachable. Partial: debug/elf, OS, allocator, "
+             "terminal; disassemble.New/consoleui.New executed but not modelled. The real binary is run under ulimit in the check. Known finding F19 recorded",
+             note=_N, technique="Lean 4 proof by composition + in-process pipeline and real binary on generated/mutated files"),
+ "C23": dict(text=_T % "C23" + "after every history of accepted and rejected instruction and block moves (and of all seven disassembler commands) the listing equals the fresh rendering of the current code apart from marks; "
+             "Lines.Line gives each instruction's row; a command that does not succeed leaves listing, code and cursor unchanged; nothing panics (for any code operations satisfying the Lawful assumptions, discharged for the reference operations)",
+             note=_N + "fmt verbs modelled by their meaning; the code operations are abstract (Lawful), tied to deps by the driver on every run and by C07.", technique="Lean 4 proof (induction over command histories) + correspondence of rendered listings"),
+ "C31": dict(text=_T % "C31" + "up/down/goto/entrypoint/find change only the cursor and either land on the specified line (find: first matching line strictly after the cursor, cyclically, excluding the cursor line) or fail leaving the cursor unchanged",
+             note=_N + "regexp matching is a parameter (match vector supplied by the implementation); strconv.Atoi by its meaning.", technique="Lean 4 proof + correspondence"),
+ "C30": dict(text=_T % "C30" + "for all byte strings parseAddr accepts exactly the grammar decimal | 0x/0X hex | 0b/0B binary | 0-octal with value < 2^64 and never panics; for all lines and widths readValue accepts exactly the prompt's "
+             "grammar and yields natToLE w (n mod 2^(8w)); empty input and underscores rejected",
+             note=_N + "strconv.ParseUint and big.Int.SetString grammars modelled from their documentation.", technique="Lean 4 proof + correspondence against an independent positional-value oracle"),
+ "C32": dict(text=_T % "C32" + "rows are exactly the 16-byte windows meeting stored memory, ascending, one each; each cell = stored byte or absent mark; ellipsis rows exactly between non-consecutive windows (plus the accepted outer ones); "
+             "address selects the row whose stored ranges contain the address or errors with the cursor unchanged; nothing panics incl. the empty view; memory hypothesis discharged for the byte and sparse memory models",
+             note=_N + "fmt verbs by their meaning; the golden-ratio window offset validated against IEEE doubles for n <= 10^6.", technique="Lean 4 proof + correspondence of the printed text parsed row by row"),
+})
+
 NOT_YET = {}
